@@ -30,35 +30,35 @@ prop('C01',
      technique='table agreement over constants read from the syntax tree; decision-table extraction of pure helpers')
 
 prop('C02',
-     rules=['NUM-LINEAR', ('NUM-LEFTPAD', ['abbreviation']), 'TAB-KEYS-PARSE', ('EXC-NUMCONV', ['abbreviation.tokenizer']), ('PATH-STACK', ['abbreviation']), 'PATH-ONCE', 'PIN-WRAPTEXT'],
+     rules=['OWN-TOKTREE', ('TBL-CONVERT', ['abbreviation']), 'NUM-LINEAR', ('NUM-LEFTPAD', ['abbreviation']), 'TAB-KEYS-PARSE', ('EXC-NUMCONV', ['abbreviation.tokenizer']), ('PATH-STACK', ['abbreviation']), 'PATH-ONCE', 'PIN-WRAPTEXT'],
      explanation='Counter formulas are decided symbolically: forward base+i, reverse base+count-i-1 as linear normal forms, innermost '
                  'repeater, clamped parent index, left zero padding without truncation (D); maxRepeat reaches the converter under the key it reads (D).',
      not_decided=['exactly N copies under a global maxRepeat budget for nested repeaters (value-level)', 'tokenization of every $/@ form'],
      technique='linear normal forms of integer expressions; reader/writer key agreement')
 
 prop('C03',
-     rules=['OWN-CACHEUSE', ('COV-MERGE', ['markup.snippets']), 'TAB-OPS', 'TAB-BRK', 'TAB-QUOTE', 'TAB-KEYS-OPT', 'DEC-BOOL', 'DEC-MERGEDECL', 'DEC-MULTIVALUE', 'SIB-CARET', 'SIB-QUOTE', 'OWN-ASTLIST', 'PATH-EMIT-ATTR', ('PATH-INITORDER', ['abbreviation', 'markup'])],
+     rules=['OWN-TOKTREE', 'TBL-CONVERT', ('TAB-MEMBER', ['markup', 'abbreviation']), 'OWN-CACHEUSE', ('COV-MERGE', ['markup.snippets']), 'TAB-OPS', 'TAB-BRK', 'TAB-QUOTE', 'TAB-KEYS-OPT', 'DEC-BOOL', 'DEC-MERGEDECL', 'DEC-MULTIVALUE', 'SIB-CARET', 'SIB-QUOTE', 'OWN-ASTLIST', 'PATH-EMIT-ATTR', ('PATH-INITORDER', ['abbreviation', 'markup'])],
      explanation='Shorthand/bracket/quote characters agree with token kinds and with what is printed back inside values (D); option names '
                  'exist (D); boolean / implied / quote / case decisions are extracted as complete decision tables (N).',
      not_decided=['merge results for arbitrary orders and duplicates, reverse mode, name mapping (value-level)'],
      technique='table agreement; decision-table extraction over the complete finite domain of the decision variables')
 
 prop('C04',
-     rules=['EXC-VISITOR', 'TAB-OPS', 'TAB-BRK', 'TAB-QUOTE', ('EXC-FMT', ['abbreviation']), ('CNT-DEPTH', ['abbreviation']), 'API-SPLITLINES', 'SIB-SPLITLINES', 'SIB-QUOTE', 'PATH-EMIT-HTML', 'PATH-EMIT-INDENT', 'EXC-RET-STR', 'DEC-TOKCTX', 'PIN-WRAPTEXT', ('SIB-ESCAPE', ['abbreviation']), ('SCN-ESCAPE', ['abbreviation', 'scanner_utils']), ('DEC-CHARCLASS', ['abbreviation', 'scanner_utils'])],
+     rules=[('TBL-CONVERT', ['abbreviation']), 'TBL-LINES', ('EXC-NEXT', ['abbreviation']), 'EXC-VISITOR', 'TAB-OPS', 'TAB-BRK', 'TAB-QUOTE', ('EXC-FMT', ['abbreviation']), ('CNT-DEPTH', ['abbreviation']), 'API-SPLITLINES', 'SIB-SPLITLINES', 'SIB-QUOTE', 'PATH-EMIT-HTML', 'PATH-EMIT-INDENT', 'EXC-RET-STR', 'DEC-TOKCTX', 'PIN-WRAPTEXT', ('SIB-ESCAPE', ['abbreviation']), ('SCN-ESCAPE', ['abbreviation', 'scanner_utils']), ('DEC-CHARCLASS', ['abbreviation', 'scanner_utils'])],
      explanation='Every structural character that can occur inside text has a printer that gives the same character back (D at table level).',
      not_decided=['escape handling, nested brace extraction, placement of wrap text at the deepest node (value-level)',
                   'str.splitlines() also splits on VT/FF/FS/GS/RS/NEL/LS/PS (recorded as known finding by rule API-SPLITLINES when built)'],
      technique='visitor exhaustiveness and table agreement')
 
 prop('C05',
-     rules=['TBL-CSSVALUE', ('NUM-LEFTPAD', ['stylesheet', 'css_abbreviation']), 'NUM-SHORTHEX', 'NUM-FRAC', 'DEC-UNIT', 'TAB-UNITS', 'TAB-CSSOPS', 'TAB-KEYS-OPT', ('EXC-NUMCONV', ['css_abbreviation', 'stylesheet']), ('EXC-FMT', ['stylesheet']), ('CNT-DEPTH', ['css_abbreviation']), ('DEC-CHARCLASS', ['css_abbreviation', 'scanner_utils']), ('OWN-GLOBAL', ['stylesheet'])],
+     rules=[('TBL-NUMBER', ['css_abbreviation']), 'TBL-CSSVALUE', ('NUM-LEFTPAD', ['stylesheet', 'css_abbreviation']), 'NUM-SHORTHEX', 'NUM-FRAC', 'DEC-UNIT', 'TAB-UNITS', 'TAB-CSSOPS', 'TAB-KEYS-OPT', ('EXC-NUMCONV', ['css_abbreviation', 'stylesheet']), ('EXC-FMT', ['stylesheet']), ('CNT-DEPTH', ['css_abbreviation']), ('DEC-CHARCLASS', ['css_abbreviation', 'scanner_utils']), ('OWN-GLOBAL', ['stylesheet'])],
      explanation='Hex printing (left padding, short form only when r, g and b allow it, r-g-b order) is decided over all 256 channel values (D); '
                  'the unit decision is extracted as a complete table (N); alias/unit/separator tables are the documented ones (D).',
      not_decided=['tokenisation of number/unit/dash/colour sequences', 'frac() rounding beyond the conversion type'],
      technique='exhaustive table extraction of pure helpers; constant tables')
 
 prop('C06',
-     rules=[('EXC-INDEX', ['stylesheet']), 'TBL-CSSMATCH', 'DEC-DIRECTHIT', 'TAB-SNIPKEYS', 'DEC-SCOPE', 'EXC-JOIN', 'TAB-KEYS-OPT', 'ORD-MERGE'],
+     rules=[('OWN-GLOBAL', ['stylesheet']), ('EXC-INDEX', ['stylesheet']), 'TBL-CSSMATCH', 'DEC-DIRECTHIT', 'TAB-SNIPKEYS', 'DEC-SCOPE', 'EXC-JOIN', 'TAB-KEYS-OPT', 'ORD-MERGE'],
      explanation='Necessary conditions for "a key selects its own snippet": equal case-folded strings score exactly 1 before any other exit and '
                  'a score of 1 is returned immediately; no key occurs twice (also ignoring case) after | expansion (exhaustive over all 479 keys); '
                  'scope filtering is a complete decision table and is applied on every call; default-value wrapping cannot raise on numbers.',
@@ -66,7 +66,7 @@ prop('C06',
      technique='structural dominance of the direct-hit exits; exhaustive key table check')
 
 prop('C07',
-     rules=[('PIN-WRAPTEXT', ['abbreviation.convert']), 'EXC-RAISE/expand', 'EXC-VISITOR', 'EXC-FMT', 'EXC-JOIN', 'EXC-NUMCONV', 'EXC-KEY', 'TAB-VOCAB', 'TAB-KEYS-PROFILE', 'CENSUS',
+     rules=[('TBL-CONVERT', ['abbreviation']), ('TBL-NUMBER', ['css_abbreviation']), 'TAB-MEMBER', 'EXC-NEXT', ('PIN-WRAPTEXT', ['abbreviation.convert']), 'EXC-RAISE/expand', 'EXC-VISITOR', 'EXC-FMT', 'EXC-JOIN', 'EXC-NUMCONV', 'EXC-KEY', 'TAB-VOCAB', 'TAB-KEYS-PROFILE', 'CENSUS',
             'SCN-CORE', ('SCN-PROGRESS', EXPAND_MODS), ('SCN-OVER', EXPAND_MODS), 'EXC-RANDINT', 'NUM-LINEAR',
             ('EXC-INDEX', ['abbreviation', 'markup', 'stylesheet', 'css_abbreviation', 'scanner', 'scanner_utils', 'token_scanner', 'config', 'output_stream', 'list_utils', 'expand', 'snippets']), 'EXC-RET-STR'],
      explanation='Explicit raises reachable from expand are one of the two parse errors (D, call graph). Implicit internal errors are decided by '
@@ -75,7 +75,7 @@ prop('C07',
      technique='call-graph reachability of raise sites; per-family exception lints with reviewed tables')
 
 prop('C08',
-     rules=['OWN-GLOBAL', 'OWN-DEFAULT', 'OWN-CALLER', 'OWN-RESTORE', 'OWN-CACHE', 'OWN-CACHEUSE', 'OWN-AMBIENT', 'OWN-ASTLIST', 'DEC-SCOPE', 'ORD-MERGE'],
+     rules=['OWN-TOKTREE', 'OWN-GLOBAL', 'OWN-DEFAULT', 'OWN-CALLER', 'OWN-RESTORE', 'OWN-CACHE', 'OWN-CACHEUSE', 'OWN-AMBIENT', 'OWN-ASTLIST', 'DEC-SCOPE', 'ORD-MERGE'],
      explanation='Decides purity for the state the library itself keeps or touches, on every path and call chain: no module-level object is mutated and '
                  'no module-level name assigned (D), no mutable default argument is mutated (D), nothing reachable from the caller\'s config / Config / '
                  'global config / options is mutated except the cache slot and the verified temporary override of `text`, which is restored in a finally '
@@ -110,14 +110,14 @@ prop('C11',
      technique='clamp dominance; table agreement')
 
 prop('C12',
-     rules=['TAB-SELFCLOSE', 'ACC-WRITER', 'TAB-KEYS-OPT', 'OWN-RAWPUSH', 'SIB-SPLITLINES', 'PATH-LEVEL', 'PATH-EMIT-HTML', 'OWN-FMT-RO', 'OWN-ASTLIST',
+     rules=['TBL-LINES', ('OWN-GLOBAL', ['markup.format', 'output_stream']), 'TAB-SELFCLOSE', 'ACC-WRITER', 'TAB-KEYS-OPT', 'OWN-RAWPUSH', 'SIB-SPLITLINES', 'PATH-LEVEL', 'PATH-EMIT-HTML', 'OWN-FMT-RO', 'OWN-ASTLIST',
             'INF-FORMAT', 'INF-LEVEL', 'INF-COMMENT', 'INF-SELFCLOSE'],
      explanation='Self-closing style decides only the characters before > (D); newline/indent emission is newline + baseIndent + level*indent (D).',
      not_decided=['should_format\'s choice of where to break'],
      technique='decision tables; who-may-write')
 
 prop('C13',
-     rules=[('INF-FORMAT', ['stylesheet.format']), 'ACC-WRITER', 'ACC-CALLBACK', 'NUM-FIELDIDX', 'SIB-CARET', 'OWN-RAWPUSH'],
+     rules=['TBL-LINES', ('INF-FORMAT', ['stylesheet.format']), 'ACC-WRITER', 'ACC-CALLBACK', 'NUM-FIELDIDX', 'SIB-CARET', 'OWN-RAWPUSH'],
      explanation='offset/line/column are written only by OutputStream in step with the appended text, callbacks get the current position and their '
                  'result is appended unmodified (D); tabstop numbers are state.field + relative index and advance by the largest index + 1 (D).',
      not_decided=['document-order numbering across a whole tree (value-level)'],
@@ -132,7 +132,7 @@ prop('C14',
      technique='field coverage; splice shape')
 
 prop('C15',
-     rules=['TBL-INDENT', 'TAB-KEYS-PROFILE', 'TAB-FORMATTERS', 'SIB-CARET', 'SIB-SPLITLINES', 'OWN-RAWPUSH', 'PATH-LEVEL', 'PATH-EMIT-INDENT', 'INF-LEVEL', 'PATH-EMIT-ATTR'],
+     rules=['TBL-LINES', 'INF-FMTREADERS', ('TAB-MEMBER', ['markup.format']), 'TBL-INDENT', 'TAB-KEYS-PROFILE', 'TAB-FORMATTERS', 'SIB-CARET', 'SIB-SPLITLINES', 'OWN-RAWPUSH', 'PATH-LEVEL', 'PATH-EMIT-INDENT', 'INF-LEVEL', 'PATH-EMIT-ATTR'],
      explanation='Profile keys read by subscript exist in all three profiles and carry the documented punctuation (D); each syntax reaches its formatter (D).',
      not_decided=['tree equality with the HTML output; layout of multi-line text'],
      technique='reader/writer key agreement')
@@ -145,21 +145,21 @@ prop('C16',
      technique='call-graph reachability; sentinel-flow analysis')
 
 prop('C17',
-     rules=[('RNG-SENT', ['action_utils']), 'RNG-STRICT/actions', 'EXC-RAISE/matcher', ('SCN-OVER', ['action_utils', 'css_matcher.parse', 'html_matcher.attributes']), ('SCN-PROGRESS', ['action_utils', 'css_matcher.parse', 'html_matcher.attributes']),
+     rules=[('OWN-AMBIENT', ['action_utils', 'html_matcher', 'css_matcher']), ('OWN-GLOBAL', ['action_utils', 'html_matcher', 'css_matcher']), ('RNG-SENT', ['action_utils']), 'RNG-STRICT/actions', 'EXC-RAISE/matcher', ('SCN-OVER', ['action_utils', 'css_matcher.parse', 'html_matcher.attributes']), ('SCN-PROGRESS', ['action_utils', 'css_matcher.parse', 'html_matcher.attributes']),
             ('CNT-DEPTH', ['css_matcher.parse', 'action_utils']), 'RNG-TRIM', ('RNG-STOP', ['action_utils']), 'RNG-FRAME', ('SIB-HTMLSTACK', ['action_utils']), ('PIN-EXTRACT', ['action_utils']), 'TBL-ACTIONS', ('TBL-HTMLSCAN', ['html_matcher.attributes']), ('TBL-CSSSCAN', ['css_matcher.parse'])],
      explanation='The after offset of a declaration without ; and the open-tag containment test (N).',
      not_decided=['next/previous item selection logic'],
      technique='sentinel-flow analysis')
 
 prop('C18',
-     rules=['SCN-CORE', ('SCN-SPAN', TOK_MODS), ('SCN-REST', TOK_MODS), ('SCN-OVER', TOK_MODS), ('SCN-PROGRESS', TOK_MODS),
+     rules=[('TBL-NUMBER', ['css_abbreviation']), 'SCN-CORE', ('SCN-SPAN', TOK_MODS), ('SCN-REST', TOK_MODS), ('SCN-OVER', TOK_MODS), ('SCN-PROGRESS', TOK_MODS),
             ('EXC-NUMCONV', TOK_MODS), ('EXC-RAISE/expand', TOK_MODS + ['scanner']), ('CNT-DEPTH', TOK_MODS), ('SCN-SKIP', TOK_MODS), ('SCN-BLIND', TOK_MODS), ('SIB-QUOTE', TOK_MODS), ('DEC-CHARCLASS', TOK_MODS + ['scanner_utils'])],
      explanation='(partial, SCN-* cursor discipline rules being built) digit runs are converted only after a successful run with start set.',
      not_decided=['span tiling until SCN-* exists'],
      technique='cursor discipline dataflow')
 
 prop('C19',
-     rules=['EXC-RAISE/math', 'DEC-PRIO', 'TAB-MATHOPS', ('RNG-CLAMP', ['math_expression']), ('EXC-NUMCONV', ['math_expression']),
+     rules=[('TBL-NUMBER', ['math_expression']), 'EXC-RAISE/math', 'DEC-PRIO', 'TAB-MATHOPS', ('RNG-CLAMP', ['math_expression']), ('EXC-NUMCONV', ['math_expression']),
             ('SCN-OVER', ['math_expression']), ('SCN-PROGRESS', ['math_expression']), ('SCN-REST', ['math_expression']),
             'RNG-BALANCED', ('CNT-DEPTH', ['math_expression']), ('DEC-CHARCLASS', ['math_expression', 'scanner_utils']), ('OWN-GLOBAL', ['math_expression']), ('EXC-INDEX', ['math_expression'])],
      explanation='Only MathExpressionException is raised explicitly (D); the precedence table satisfies the documented orderings and a prefix sign never '
@@ -168,7 +168,7 @@ prop('C19',
      technique='finite priority table extraction; call-graph raise reachability')
 
 prop('C20',
-     rules=[('TAB-SNIPKEYS', ['snippets']), 'ORD-MERGE', 'TAB-KEYS-OPT', 'TAB-UNITS', 'TAB-SELFCLOSE', ('OWN-CALLER', ['config', 'expand']), ('OWN-GLOBAL', ['config', 'snippets', 'expand']), ('OWN-DEFAULT', ['config', 'expand'])],
+     rules=[('OWN-GLOBAL', ['stylesheet', 'config', 'snippets']), ('TAB-SNIPKEYS', ['snippets']), 'ORD-MERGE', 'TAB-KEYS-OPT', 'TAB-UNITS', 'TAB-SELFCLOSE', ('OWN-CALLER', ['config', 'expand']), ('OWN-GLOBAL', ['config', 'snippets', 'expand']), ('OWN-DEFAULT', ['config', 'expand'])],
      explanation='The six layers are applied to a fresh dict in exactly the documented order, each looked up with a default or behind a membership guard, '
                  'no layer table or caller dict is written, Config passes (type, syntax, section, user, global) in that order and expand forwards the global config (D).',
      not_decided=[],
